@@ -1,3 +1,136 @@
+//! Large cases: braids longer than the 256-entry buffer, more than 3x256 live convergence points,
+//! long chains with skip lists, wide head sets. Serves C01, C02, C03, C09.
+use graphkit::{dag::*, driver::*, r#gen::*, model::*, replica::*};
 use vcore::*;
-use crate::Mons;
-pub fn case(_cs: u64, _args: &Args, _mons: &mut Mons, _case: &Value) {}
+
+use crate::{all_bits, final_view, Mons};
+
+pub fn build(kind: u64, rng: &mut Rng, scale: u64) -> Model {
+    let sz = |n: usize| (n as u64 * scale / 100).max(4) as usize;
+    let cfg = GenCfg {
+        n: 0,
+        shape: Shape::Random,
+        id_style: *rng.pick(&[IdStyle::Random, IdStyle::LastByte, IdStyle::Ascending, IdStyle::Descending]),
+        prios: *rng.pick(&[1, 2, 4]),
+        p_finalize: 0,
+        finalize_safe: true,
+        p_require: 50,
+        p_quiet: 850,
+        p_del: 200,
+        max_ops: 2,
+        width: 0,
+    };
+    let mut g = DagGen::new(cfg, rng);
+    match kind % 4 {
+        0 => {
+            // two (or three) long concurrent branches: braid of 600-1000 entries
+            let root = g.chain(0, 2);
+            let k = g.rng.urange(2, 3);
+            for _ in 0..k {
+                let len = sz(g.rng.urange(300, 480));
+                g.chain(root, len);
+            }
+        }
+        1 => {
+            // > 768 convergence points at one max_cut level
+            let w = sz(820);
+            let mut ms = vec![];
+            for _ in 0..w {
+                let x = g.child(0);
+                let y = g.child(x);
+                let z = g.child(x);
+                if let Some(m) = g.merge(y, z) {
+                    ms.push(m);
+                }
+            }
+            // optionally fold a few of them so nested merges exist too
+            for i in 0..g.rng.usize(6) {
+                if i + 1 < ms.len() {
+                    g.merge(ms[i], ms[i + 1]);
+                }
+            }
+        }
+        2 => {
+            // long chain with branches at skip-list boundaries, merged back at the end
+            let n = sz(g.rng.urange(1500, 3000));
+            let mut trunk = vec![0usize];
+            for _ in 0..n {
+                let p = *trunk.last().unwrap();
+                trunk.push(g.child(p));
+            }
+            let mut tip = *trunk.last().unwrap();
+            for d in [n / 2, n * 3 / 4, n * 7 / 8, n - 11, n - 10, n - 9, 1] {
+                let len = g.rng.urange(1, 12);
+                let b = g.chain(trunk[d.min(n - 1)], len);
+                if g.rng.bool() {
+                    if let Some(m) = g.merge(tip, b) {
+                        tip = g.child(m);
+                    }
+                }
+            }
+        }
+        _ => {
+            // wide fan: several hundred heads committed at once
+            let root = g.chain(0, 1);
+            let w = sz(g.rng.urange(300, 600));
+            for _ in 0..w {
+                let c = g.child(root);
+                if g.rng.chance(1, 4) {
+                    g.child(c);
+                }
+            }
+        }
+    }
+    g.build_as_is()
+}
+
+pub fn case(cs: u64, args: &Args, mons: &mut Mons, case: &Value) {
+    let mut rng = Rng::new(cs);
+    let kind = cs % 4;
+    let _ = kind;
+    let mut model = build(kind, &mut rng, args.scale.min(100));
+    let all = all_bits(&model);
+    let init = model.node(0).id;
+    let mut obs = Obs::default();
+    let mut views = vec![];
+    let none = Bits::new(model.len());
+    for h in 0..2 {
+        let hcfg = HistCfg {
+            order: if h == 0 { Order::Creation } else { *rng.pick(&[Order::RandomTopo, Order::DepthFirst, Order::LowIdFirst]) },
+            max_batch: if h == 0 { 100 } else { *rng.pick(&[1, 7, 400]) },
+            p_flush: if h == 0 { 0 } else { 200 },
+            p_commit: if h == 0 { 0 } else { *rng.pick(&[0, 20]) },
+            p_dup: 0,
+        };
+        let steps = history(&model, &|_| true, &hcfg, &mut rng);
+        let mut rep = MemReplica::new_mem(&init);
+        let out = run_history(&mut rep, &mut model, &steps, &none, &RunCfg { check_every_commit: false, check_blocks: true }, &mut obs);
+        if !out.aborted && out.committed == all {
+            if let Some(v) = final_view(&mut rep) {
+                views.push(v);
+            }
+        }
+        if rep.spill.runaway.get() > 0 {
+            obs.fail("C02", "convergence-map-lookup-never-terminates", json!({"history": h, "spill_writes_by_one_braid": graphkit::audit::SPILL_WRITE_LIMIT}));
+        }
+        obs.count("histories", 1);
+        obs.count("spill_braid_writes", rep.spill.braid_writes.get());
+        obs.count("spill_braid_reads", rep.spill.braid_reads.get());
+        obs.count("spill_conv_writes", rep.spill.conv_writes.get());
+        obs.count("spill_conv_reads", rep.spill.conv_reads.get());
+    }
+    if views.len() == 2 && views[0] != views[1] {
+        obs.fail("C01", "large-replicas-with-same-commands-differ", json!({"heads_equal": views[0].0 == views[1].0, "facts_equal": views[0].1 == views[1].1, "hello_equal": views[0].2 == views[1].2}));
+    }
+    obs.count("large_cases", 1);
+    obs.max("max_commands_in_case", model.len() as u64);
+    let h = mix2(model.dag.shape_hash(), kind);
+    for id in ["C01", "C02", "C03", "C09"] {
+        if let Some(m) = mons.get(id) {
+            m.eval();
+            m.nontrivial(h);
+            m.seen("large_kinds", ["long-branches", "convergence-fanout", "long-chain-skip-boundaries", "wide-fan"][kind as usize]);
+        }
+    }
+    mons.take(obs, case);
+}
